@@ -265,6 +265,9 @@ func (r *Runner) Run(cases []Case) ([]Result, error) {
 // carries the entry point that was running.
 func (r *Runner) Alone(c Case) (Result, error) {
 	res := make([]Result, 1)
-	_, err := r.session([]Case{c}, 0, res, true)
+	// a generous bound: on a busy machine a case can miss the bound of the bulk run; a real hang misses any bound
+	r2 := *r
+	r2.Timeout = 5 * r.Timeout
+	_, err := r2.session([]Case{c}, 0, res, true)
 	return res[0], err
 }
